@@ -22,7 +22,7 @@ pub fn all_pieces(max_len: u32) -> Vec<Piece> {
     for i in 0..total {
         crate::e3::nth_string(&sigma, i, &mut s);
         let text: &'static str = Box::leak(s.clone().into_boxed_str());
-        for kind in [PieceKind::WriteStr, PieceKind::WritelnStr, PieceKind::UWrite, PieceKind::FmtWrite] {
+        for kind in [PieceKind::WriteStr, PieceKind::WritelnStr, PieceKind::UWrite, PieceKind::FmtWrite, PieceKind::FmtChars, PieceKind::UChars] {
             v.push(Piece { kind, text });
         }
     }
